@@ -13,7 +13,8 @@
 From Coq Require Import ZArith List Bool String Sorting.Sorted.
 From KV Require Import Base.Sx Base.Str Base.SelSlice Gen.Generated Model.Select Model.Scans
   Proofs.SelectBaseP Proofs.SelectP Proofs.SelectLawsP Proofs.ScansP.
-From KV Require Model.Categorical Proofs.ScansSegP Model.ScansConcat Proofs.ScansConcatP.
+From KV Require Model.Categorical Proofs.ScansSegP Model.ScansConcat Proofs.ScansConcatP Proofs.ScansPipeP Proofs.ScansNamesP
+  Proofs.ScansBodyP Proofs.ScansOrderP Proofs.ScansTotalP.
 Import ListNotations.
 Open Scope Z_scope.
 
@@ -28,6 +29,34 @@ Theorem C03_source_skeleton :
   /\ it_compscans_final_reset = ""%string /\ it_compscans_name_sensor = "Observation/label"%string.
 Proof. exact skeleton_ok. Qed.
 Print Assumptions C03_source_skeleton.
+
+(* tie: the attribute -> sensor table read from the last statements of select() (each of the form
+   self.<attr> = sorted(set(self.sensor[<sensor>])), assigned nowhere else) is the one the model reads the copied
+   index lists and target_indices through *)
+Theorem C03_index_attrs_source :
+  sel_indices_attrs = [("scan_indices", "Observation/scan_index"); ("compscan_indices", "Observation/compscan_index");
+                       ("target_indices", "Observation/target_index")]%string
+  /\ it_field WScans = d_scan /\ it_field WCompscans = d_cscan /\ it_tfield = d_target.
+Proof. exact index_attrs_ok. Qed.
+Print Assumptions C03_index_attrs_source.
+
+(* tie: the numbers and strings in the decisions of the segmentation pipelines of VisibilityDataV4 / H5DataV3 /
+   H5DataV2 (statement order and comparison operators are fixed by the shape test of the translator item; the model
+   `segment` RUNS on these numbers through segk_of, and add_unmatched on C11's translated default match distance) *)
+Theorem C03_segmentation_source_skeleton :
+  (seg_v4_slew_len_gt = 1 /\ seg_v4_slew_event_index = 1 /\ seg_v4_slew_event_value = 1 /\ seg_v4_slew_dump = 1
+   /\ seg_v4_slew_value = "slew"%string /\ seg_v4_label_uv_gt = 1 /\ seg_v4_label_removed = ""%string /\ seg_v4_label_first_gt = 0
+   /\ seg_v4_label_add_event = 0 /\ seg_v4_label_add_value = ""%string /\ seg_v4_stop_value = "stop"%string /\ seg_v4_stop_dump = 0)
+  /\ (seg_v3_slew_len_gt = 1 /\ seg_v3_slew_event_index = 1 /\ seg_v3_slew_event_value = 1 /\ seg_v3_slew_dump = 1
+   /\ seg_v3_slew_value = "slew"%string /\ seg_v3_label_uv_gt = 1 /\ seg_v3_label_removed = ""%string /\ seg_v3_label_first_gt = 0
+   /\ seg_v3_label_add_event = 0 /\ seg_v3_label_add_value = ""%string /\ seg_v3_nothing_len_gt = 1 /\ seg_v3_nothing_dump = 0
+   /\ seg_v3_nothing_value = "Nothing, special"%string)
+  /\ (seg_v2_slew_len_gt = 1 /\ seg_v2_slew_event_index = 1 /\ seg_v2_slew_event_value = 1 /\ seg_v2_slew_dump = 1
+   /\ seg_v2_slew_value = "slew"%string /\ seg_v2_label_uv_gt = 1 /\ seg_v2_label_removed = ""%string /\ seg_v2_label_first_gt = 0
+   /\ seg_v2_label_add_event = 0 /\ seg_v2_label_add_value = ""%string)
+  /\ k_dist (segk_of V4) = 1%nat.
+Proof. exact ScansNamesP.seg_skeleton_ok. Qed.
+Print Assumptions C03_segmentation_source_skeleton.
 
 (* every state reachable from the constructor by successful select() calls (distinct keywords per call) satisfies the
    invariant the theorems below assume *)
@@ -88,11 +117,11 @@ Theorem C03_nested : forall (O : sobs) outer inner,
 Proof. intros O outer inner. split; [apply iterate_plain_body_ok | intros s ys sf H3 H; exact (nested_facts O outer inner s ys sf H3 H)]. Qed.
 Print Assumptions C03_nested.
 
-(* EVERY DUMP ONCE (partial: see below).  For EVERY well-formed categorical series x starting at dump 0 (C11's WF),
-   the index sensor the format classes build from it, CategoricalData(range(len(x)), x.events), is well formed, has
-   the events of x, gives every dump exactly one index, and its per-dump list is numbered consecutively from zero in
-   time order.  (scan_index is built this way from scan_state, compscan_index from label.) *)
-Theorem C03_every_dump_once_partial : forall c : cdz,
+(* INDEX SENSORS.  For EVERY well-formed categorical series x starting at dump 0 (C11's WF), the index sensor the format
+   classes build from it, CategoricalData(range(len(x)), x.events), is well formed, has the events of x, gives every
+   dump exactly one index, and its per-dump list is numbered consecutively from zero in time order.  (scan_index is
+   built this way from scan_state, compscan_index from label.) *)
+Theorem C03_index_sensor_numbered : forall c : cdz,
   Categorical.WF c -> Categorical.start0 c -> Categorical.idx c <> [] ->
   let ic := index_cd c in
   Categorical.WF ic /\ Categorical.start0 ic /\ Categorical.ev ic = Categorical.ev c
@@ -102,13 +131,108 @@ Theorem C03_every_dump_once_partial : forall c : cdz,
      = Categorical.expand_evs (Categorical.ev c) (map Z.of_nat (seq 0 (List.length (Categorical.idx c))))
   /\ numbered (Categorical.expand zd ic) = true.
 Proof. exact ScansSegP.index_cd_numbered. Qed.
-Print Assumptions C03_every_dump_once_partial.
-(* Full statement NOT proved (C03_every_dump_once): for every fmt, params and well-formed act / label / target
-   starting at dump 0 with N > 0 dumps,  segment fmt P act label target = Some g -> seg_ok N g = true.
-   Missing: the chaining of C11_add_unmatched_expand / C11_align_expand / C11_remove_repeats_expand / C11_add_expand
-   through the pipeline and two small lemmas (drop_first keeps WF; align keeps the first event at dump 0).
-   What is established instead: seg_ok is evaluated on the model output for every generated data set of every format
-   (and the model output is compared with the real sensors), and seg_ok means what it says: *)
+Print Assumptions C03_index_sensor_numbered.
+
+(* EVERY DUMP ONCE (full strength; was C03_every_dump_once_partial).  good N c = c is well formed (C11's WF), starts
+   at dump 0 and ends at dump N.  For EVERY format (v4 / v3 / v2), every choice of the four strings the pipelines
+   test for, and EVERY activity / label / target series covering the N > 0 dumps (what sensor_to_categorical
+   delivers): whenever the pipeline  slew workaround -> label.remove('') -> scan.add_unmatched(label.events) ->
+   label.align(scan.events) -> label.add(0,'') -> [v3: drop 'Nothing, special'] -> target.align(scan.events) ->
+   [v4: remove_repeats, initial-stop-target loop, align onto itself]  returns at all, ALL SIX sensors cover exactly the
+   dumps 0..N-1 (seg_good: well formed, first event 0, last event N), scan_index / compscan_index / target_index
+   have the events of scan_state / label / target (so unique_values[indices[i]] IS the name of item i), the per-dump
+   scan and compscan indices are numbered consecutively from zero in time order, the decidable run-time check
+   seg_ok accepts, the observation handed to select() has exactly N dumps whose fields are the N entries of the
+   per-dump lists (every dump: exactly one scan, one compound scan, one target), and names_ok - the hypothesis of
+   C03_yield_values - holds for both generators.  What must NOT happen is excluded too: no dump without a value
+   (first event 0, last N), no dump with two (events strictly increasing). *)
+Theorem C03_every_dump_once : forall f P (act label target : cdz) N g, (0 < N)%nat ->
+  ScansPipeP.good N act -> ScansPipeP.good N label -> ScansPipeP.good N target ->
+  segment f P act label target = Some g ->
+  ScansPipeP.seg_good N g /\ seg_ok N g = true
+  /\ (forall ts, List.length (dumps_of_seg g ts) = N
+        /\ map d_scan (dumps_of_seg g ts) = Categorical.expand zd (sg_scan g)
+        /\ map d_cscan (dumps_of_seg g ts) = Categorical.expand zd (sg_cscan g)
+        /\ map d_target (dumps_of_seg g ts) = Categorical.expand zd (sg_tindex g)
+        /\ map d_state (dumps_of_seg g ts) = Categorical.expand zd (sg_state g)
+        /\ map d_label (dumps_of_seg g ts) = Categorical.expand zd (sg_label g))
+  /\ (forall o w, names_ok (sobs_of_seg g o) w).
+Proof.
+  intros f P act label target N g HN Ga Gl Gt H.
+  pose proof (ScansPipeP.segment_good f P act label target N g HN Ga Gl Gt H) as SG.
+  split; [exact SG|]. split; [exact (ScansPipeP.seg_good_ok N g SG)|].
+  split; [intro ts; exact (ScansNamesP.seg_dumps N g ts SG) | intros o w; exact (ScansNamesP.seg_names_ok N g o w HN SG)].
+Qed.
+Print Assumptions C03_every_dump_once.
+
+(* THE PIPELINES NEVER FAIL on such inputs (no IndexError / ValueError from align, add, remove_repeats, the _lookup
+   calls of the initial-stop loop): the hypothesis `segment ... = Some g` of C03_every_dump_once is always met *)
+Theorem C03_pipeline_total : forall f P (act label target : cdz) N, (0 < N)%nat ->
+  ScansPipeP.good N act -> ScansPipeP.good N label -> ScansPipeP.good N target ->
+  exists g, segment f P act label target = Some g.
+Proof. exact ScansTotalP.segment_total. Qed.
+Print Assumptions C03_pipeline_total.
+
+Theorem C03_pipeline_total_v1 : forall states groups labels targets segs N, (0 < N)%nat ->
+  Categorical.incr segs -> hd 0%nat segs = 0%nat -> last segs 0%nat = N ->
+  List.length segs = S (List.length states) -> List.length groups = List.length states ->
+  List.length labels = List.length states -> List.length targets = List.length states ->
+  exists g, segment_v1 states groups labels targets segs = Some g.
+Proof. exact ScansTotalP.segment_v1_total. Qed.
+Print Assumptions C03_pipeline_total_v1.
+
+(* what seg_good says, field by field (definitional unfolding, so that the statement above can be read here) *)
+Theorem C03_seg_good_means : forall N g, ScansPipeP.seg_good N g ->
+  (forall c, In c [sg_state g; sg_scan g; sg_label g; sg_cscan g; sg_target g; sg_tindex g] ->
+     Categorical.WF c /\ Categorical.start0 c /\ Categorical.ndumps c = N
+     /\ List.length (Categorical.expand zd c) = N)
+  /\ Categorical.ev (sg_scan g) = Categorical.ev (sg_state g)
+  /\ Categorical.ev (sg_cscan g) = Categorical.ev (sg_label g)
+  /\ Categorical.ev (sg_tindex g) = Categorical.ev (sg_target g)
+  /\ numbered (Categorical.expand zd (sg_scan g)) = true /\ numbered (Categorical.expand zd (sg_cscan g)) = true.
+Proof.
+  intros N g SG. destruct SG as [A B C D E F E1 E2 E3 _ _ _ N1 N2]. split; [|repeat split; assumption].
+  intros c [<-|[<-|[<-|[<-|[<-|[<-|[]]]]]]];
+    (match goal with G : ScansPipeP.good N ?c |- _ /\ _ /\ Categorical.ndumps ?c = _ /\ _ =>
+       pose proof (ScansPipeP.good_expand_length N c G); destruct G as (? & ? & ?); auto end).
+Qed.
+Print Assumptions C03_seg_good_means.
+
+(* the same for v1 files (already cut into scan groups: one state, compscan group, label and target per group) *)
+Theorem C03_every_dump_once_v1 : forall states groups labels targets segs N g, (0 < N)%nat ->
+  Categorical.incr segs -> hd 0%nat segs = 0%nat -> last segs 0%nat = N ->
+  List.length segs = S (List.length states) -> List.length groups = List.length states ->
+  List.length labels = List.length states -> List.length targets = List.length states ->
+  segment_v1 states groups labels targets segs = Some g ->
+  ScansPipeP.seg_good N g /\ seg_ok N g = true /\ (forall o w, names_ok (sobs_of_seg g o) w).
+Proof.
+  intros states groups labels targets segs N g HN I H0 HL L1 L2 L3 L4 H.
+  pose proof (ScansPipeP.segment_v1_good states groups labels targets segs N g HN I H0 HL L1 L2 L3 L4 H) as SG.
+  split; [exact SG|]. split; [exact (ScansPipeP.seg_good_ok N g SG) | intros o w; exact (ScansNamesP.seg_names_ok N g o w HN SG)].
+Qed.
+Print Assumptions C03_every_dump_once_v1.
+
+(* YIELDED NAME on segmented observations: no names_ok hypothesis left.  For every observation built from a seg_good
+   segmentation the state (label) yielded by scans() (compscans()) is the state (label) of EVERY dump shown. *)
+Theorem C03_yield_name_segmented : forall B N g o w (body : st -> res (B * st)) s ys sf, (0 < N)%nat ->
+  ScansPipeP.seg_good N g ->
+  body_ok (so (sobs_of_seg g o)) body -> Inv3 (so (sobs_of_seg g o)) s ->
+  iterate (sobs_of_seg g o) w body s = Ok (ys, sf) ->
+  forall y p d, In y ys -> nth_error (o_dumps (so (sobs_of_seg g o))) p = Some d -> shown y p = true ->
+    y_name y = namefield w d.
+Proof. exact ScansNamesP.yield_values_seg. Qed.
+Print Assumptions C03_yield_name_segmented.
+
+(* non-vacuity of C03_every_dump_once: the three input series of C03_example are `good 12`, the v4 pipeline returns a
+   segmentation, it is seg_good, and its per-dump indices are the ones listed *)
+Example C03_every_dump_once_example : exists g, ex_seg = Some g /\ ScansPipeP.seg_good 12 g /\ seg_ok 12 g = true
+  /\ Categorical.expand zd (sg_scan g) = [0; 0; 0; 1; 1; 2; 2; 3; 3; 4; 4; 4]
+  /\ Categorical.expand zd (sg_cscan g) = [0; 0; 0; 0; 0; 0; 0; 1; 1; 1; 1; 1]
+  /\ Categorical.expand zd (sg_tindex g) = [0; 0; 0; 0; 0; 1; 1; 1; 1; 0; 0; 0].
+Proof. exact ScansNamesP.ex_seg_good. Qed.
+Print Assumptions C03_every_dump_once_example.
+
+(* the decidable check evaluated at run time on every generated data set means what it says: *)
 Theorem C03_seg_ok_sound : forall N (c : cdz), cd_ok N c = true ->
   Categorical.incr (Categorical.ev c) /\ List.length (Categorical.ev c) = S (List.length (Categorical.idx c))
   /\ Forall (fun i => (i < List.length (Categorical.uv c))%nat) (Categorical.idx c)
@@ -133,6 +257,172 @@ Theorem C03_example :
        /\ positions (tk sf) = [5; 6; 7; 8; 9] /\ fk sf = fk ex_s /\ bk sf = bk ex_s.
 Proof. exact ex_facts. Qed.
 Print Assumptions C03_example.
+
+(* ---------------------------------------------------------------------------------------------------------------
+   LAWS A USER RELIES ON (Proofs/ScansOrderP.v) *)
+
+(* IN TIME ORDER.  C03_partition gives increasing INDEX order; on every observation built from a seg_good segmentation
+   (C03_every_dump_once: every output of the pipelines) that IS time order: every dump shown by an item comes before
+   every dump shown by an item with a larger index. *)
+Theorem C03_time_order : forall B N g o w (body : st -> res (B * st)) s ys sf, (0 < N)%nat -> ScansPipeP.seg_good N g ->
+  body_ok (so (sobs_of_seg g o)) body -> Inv3 (so (sobs_of_seg g o)) s ->
+  iterate (sobs_of_seg g o) w body s = Ok (ys, sf) ->
+  forall y y' p q, In y ys -> In y' ys -> shown y p = true -> shown y' q = true -> y_index y < y_index y' -> (p < q)%nat.
+Proof. exact ScansOrderP.items_in_time_order. Qed.
+Print Assumptions C03_time_order.
+
+(* ITERATING AGAIN after exhaustion: same items, same dumps per item, same selection afterwards *)
+Theorem C03_iterate_again : forall B B2 (O : sobs) w (body : st -> res (B * st)) (body2 : st -> res (B2 * st)) s ys sf ys2 sf2,
+  body_ok (so O) body -> body_ok (so O) body2 -> Inv3 (so O) s ->
+  iterate O w body s = Ok (ys, sf) -> iterate O w body2 sf = Ok (ys2, sf2) ->
+  map y_index ys2 = map y_index ys
+  /\ (forall y y2 p, In y ys -> In y2 ys2 -> y_index y = y_index y2 -> shown y2 p = shown y p)
+  /\ same_sel sf2 s.
+Proof. exact ScansOrderP.iterate_again. Qed.
+Print Assumptions C03_iterate_again.
+
+(* NESTED PARTITION (scans inside compscans and the other way round): inside every outer item the inner items are the
+   inner indices present in the dumps of the outer item, increasing; an inner item shows exactly the dumps of the prior
+   selection that belong to BOTH the outer and the inner item; every dump of the outer item is shown by an inner item *)
+Theorem C03_nested_partition : forall (O : sobs) outer inner s ys sf, Inv3 (so O) s ->
+  iterate_nested O outer inner s = Ok (ys, sf) ->
+  forall y, In y ys ->
+    map y_index (y_body y) = indices_of (it_field inner) (so O) (tk (y_st y))
+    /\ StronglySorted Z.lt (map y_index (y_body y))
+    /\ (forall z p, In z (y_body y) -> shown z p = nth p (tk s) false &&
+          match nth_error (o_dumps (so O)) p with
+          | Some d => (it_field outer d =? y_index y) && (it_field inner d =? y_index z)
+          | None => false end)
+    /\ (forall p, shown y p = true -> exists z, In z (y_body y) /\ shown z p = true).
+Proof. exact ScansOrderP.nested_partition. Qed.
+Print Assumptions C03_nested_partition.
+
+(* ---------------------------------------------------------------------------------------------------------------
+   LOOP BODIES THAT CALL select() THEMSELVES (Proofs/ScansBodyP.v).
+   tkey k              = k is a keyword of the time dimension (dumps, timerange, scans, compscans, targets, target_tags)
+   body_tk_ok o body   = the body keeps the invariant and never ADDS a time criterion to _selection (it may change the
+                         frequency / corrprod / weights / flags selection, drop time criteria, even clear the time mask)
+   body_calls O calls  = the body that issues the given select() calls at every yield. *)
+
+(* every well-behaved body of C03_partition is in this larger class *)
+Theorem C03_body_ok_is_time_safe : forall B o (body : st -> res (B * st)), body_ok o body -> ScansBodyP.body_tk_ok o body.
+Proof. exact ScansBodyP.body_ok_tk. Qed.
+Print Assumptions C03_body_ok_is_time_safe.
+
+(* a body made of ANY select() calls none of which names a time keyword (whatever their reset) is in the class *)
+Theorem C03_selecting_body_calls : forall O calls, Forall ScansBodyP.no_time_call calls ->
+  ScansBodyP.body_tk_ok (so O) (body_calls O calls).
+Proof. exact ScansBodyP.body_calls_tk_ok. Qed.
+Print Assumptions C03_selecting_body_calls.
+
+(* PARTITION AND TIME RESTORE for every body of the class: same items, once each, increasing; each item shows exactly
+   the previously selected dumps of the item WHATEVER the earlier bodies did; union and disjointness; after exhaustion
+   the invariant holds, the time mask is the one before and the time criteria recorded in _selection are the ones
+   before.  (Frequency / corrprod selection after exhaustion is whatever the bodies left, re-filtered by the saved
+   criteria: not claimed equal.) *)
+Theorem C03_selecting_body : forall B (O : sobs) w (body : st -> res (B * st)) s ys sf,
+  ScansBodyP.body_tk_ok (so O) body -> Inv3 (so O) s -> iterate O w body s = Ok (ys, sf) ->
+  map y_index ys = indices_of (it_field w) (so O) (tk s) /\ StronglySorted Z.lt (map y_index ys)
+  /\ (forall y p, In y ys -> shown y p = nth p (tk s) false &&
+        match nth_error (o_dumps (so O)) p with Some d => it_field w d =? y_index y | None => false end)
+  /\ (forall p d, nth_error (o_dumps (so O)) p = Some d -> nth p (tk s) false = true ->
+        exists y, In y ys /\ y_index y = it_field w d /\ shown y p = true)
+  /\ (forall y y' p, In y ys -> In y' ys -> shown y p = true -> shown y' p = true -> y_index y = y_index y')
+  /\ Inv3 (so O) sf /\ tk sf = tk s
+  /\ (forall k, ScansBodyP.tkey k = true -> lookup k (sel sf) = lookup k (sel s)).
+Proof. exact ScansBodyP.partition_facts_t. Qed.
+Print Assumptions C03_selecting_body.
+
+(* non-vacuity, and why the class cannot be larger: on the 12-dump example a body d.select(channels=slice(0,2),
+   reset='') leaves every scan intact and the time selection restored (channels stay selected); a body
+   d.select(dumps=slice(0,4), reset='') ADDS a time criterion, which select() re-applies for every later item: scan 1
+   shows dump 3 only, an empty item raises IndexError, and after exhaustion dumps 0..3 are selected instead of 0..4
+   (_set_keep restores the mask but not _selection).  Outside the domain of the property (ASSUMPTIONS). *)
+Example C03_selecting_body_example :
+  Forall ScansBodyP.no_time_call ScansBodyP.ex_body_freq
+  /\ (exists ys sf, iterate ex_O WScans (body_calls ex_O ScansBodyP.ex_body_freq) (init (so ex_O)) = Ok (ys, sf)
+     /\ map ScansBodyP.tsummary ys = [(0, [0; 1; 2]); (1, [3; 4]); (2, [5; 6]); (3, [7; 8]); (4, [9; 10; 11])]
+     /\ positions (tk sf) = [0; 1; 2; 3; 4; 5; 6; 7; 8; 9; 10; 11] /\ positions (fk sf) = [0; 1])
+  /\ iterate ex_O WScans (body_calls ex_O ScansBodyP.ex_body_time) (init (so ex_O)) = Err EFail
+  /\ (exists s0 ys sf, select (so ex_O) (init (so ex_O)) [("scans"%string, VScans [SIdx 0; SIdx 1])] = Ok s0
+     /\ positions (tk s0) = [0; 1; 2; 3; 4]
+     /\ iterate ex_O WScans (body_calls ex_O ScansBodyP.ex_body_time) s0 = Ok (ys, sf)
+     /\ map ScansBodyP.tsummary ys = [(0, [0; 1; 2]); (1, [3])] /\ positions (tk sf) = [0; 1; 2; 3]).
+Proof. exact (conj ScansBodyP.ex_body_freq_ok ScansBodyP.ex_body_facts). Qed.
+Print Assumptions C03_selecting_body_example.
+
+(* ---------------------------------------------------------------------------------------------------------------
+   ABANDONED ITERATION (break, return, exception in the body, generator closed / garbage collected).
+   iterate_break O w body n s = the consumer leaves the loop while item number n (0-based) is current; the first n
+   items were complete iterations.  The generators have no try/finally: nothing after that yield runs.  The docstring
+   promises "after each iteration the data set will reflect the scan selection" and the restore only on exhaustion.
+
+   What is left behind, for ALL observations, states, bodies and n: exactly the state of that yield - the invariant
+   holds (so every later select() / iteration behaves as specified), the time mask is the prior selection restricted
+   to the item, frequency / corrprod / weights / flags selection are the prior ones, _selection is the prior one plus
+   <key> = the item; the first n items were visited as in C03_partition; name and target are those of the item. *)
+Theorem C03_abandoned : forall B (O : sobs) w (body : st -> res (B * st)) n s ys a sf,
+  body_ok (so O) body -> Inv3 (so O) s -> iterate_break O w body n s = Ok (ys, Some a, sf) ->
+  sf = ab_st a
+  /\ nth_error (indices_of (it_field w) (so O) (tk s)) n = Some (ab_index a)
+  /\ map y_index ys = firstn n (indices_of (it_field w) (so O) (tk s))
+  /\ Inv3 (so O) sf /\ tk sf = mand (tk s) (fmask (so O) w (ab_index a)) /\ fk sf = fk s /\ bk sf = bk s
+  /\ wk sf = wk s /\ flk sf = flk s
+  /\ (forall k, lookup k (sel sf) = if String.eqb k (it_pop w) then Some (VScans [SIdx (ab_index a)]) else lookup k (sel s))
+  /\ name_of O w (ab_index a) = Some (ab_name a)
+  /\ (exists rest, indices_of d_target (so O) (tk sf) = ab_target a :: rest).
+Proof.
+  intros B O w body n s ys a sf HB H3 H.
+  destruct (ScansBodyP.break_spec O w body HB n s ys a sf H3 H) as (A1 & A2 & A3 & _ & A4).
+  split; [exact A1|]. split; [exact A2|]. split; [exact A3 | exact A4].
+Qed.
+Print Assumptions C03_abandoned.
+
+(* with n at or beyond the number of selected items the loop is not abandoned: iterate_break IS iterate *)
+Theorem C03_abandoned_beyond : forall B (O : sobs) w (body : st -> res (B * st)) n s,
+  nth_error (indices_of (it_field w) (so O) (tk s)) n = None ->
+  iterate_break O w body n s = match iterate O w body s with Ok (ys, sf) => Ok (ys, None, sf) | Err e => Err e end.
+Proof. intro B. exact (@ScansBodyP.break_beyond B). Qed.
+Print Assumptions C03_abandoned_beyond.
+
+(* picking the work up after a break: a generator of the same kind started in the abandoned state visits exactly
+   the abandoned item and restores the ABANDONED selection (the selection before the first loop is not recovered
+   by iterating again; select() with reset='T' or no arguments is needed) *)
+Theorem C03_abandoned_then_iterate : forall B B2 (O : sobs) w (body : st -> res (B * st)) (body2 : st -> res (B2 * st))
+  n s ys a sf ys2 sf2,
+  body_ok (so O) body -> body_ok (so O) body2 -> Inv3 (so O) s ->
+  iterate_break O w body n s = Ok (ys, Some a, sf) -> iterate O w body2 sf = Ok (ys2, sf2) ->
+  map y_index ys2 = [ab_index a] /\ Inv3 (so O) sf2 /\ same_sel sf2 sf.
+Proof. exact ScansBodyP.break_then_iterate. Qed.
+Print Assumptions C03_abandoned_then_iterate.
+
+(* non-vacuity: the history of C03_example (dumps 5..9 selected), scans(), break while the second item (scan 3) is
+   current: scan 2 was a complete iteration, dumps 7, 8 stay selected, _selection['scans'] = 3; iterating again
+   yields scan 3 alone *)
+Example C03_abandoned_example :
+  exists ys a sf, iterate_break ex_O WScans no_body 1 ex_s = Ok (ys, Some a, sf)
+    /\ map ScansBodyP.tsummary ys = [(2, [5; 6])] /\ ab_index a = 3 /\ positions (tk sf) = [7; 8]
+    /\ lookup "scans" (sel sf) = Some (VScans [SIdx 3])
+    /\ exists ys2 sf2, iterate_plain ex_O WScans sf = Ok (ys2, sf2) /\ map ScansBodyP.tsummary ys2 = [(3, [7; 8])]
+                       /\ positions (tk sf2) = [7; 8].
+Proof. exact ScansBodyP.ex_break_facts. Qed.
+Print Assumptions C03_abandoned_example.
+
+(* boundary of the nesting guarantee (C03_nested is about inner generators RUN TO EXHAUSTION): a break in the inner
+   loop leaves the inner key in _selection, which the outer generator neither pops nor saves - the next outer item is
+   intersected with it (here: empty, IndexError), and with a single outer item the inner item alone stays selected
+   after the outer generator is exhausted.  Outside the domain of the property; the model follows the code and the
+   real generators are compared with it on such loops (wire_35). *)
+Example C03_inner_break_example :
+  iterate_nested_break ex_O WCompscans WScans 0 (init (so ex_O)) = Err EFail
+  /\ iterate_nested_break ex_O WScans WCompscans 0 (init (so ex_O)) = Err EFail
+  /\ (exists s0 ys sf, select (so ex_O) (init (so ex_O)) [("compscans"%string, VScans [SIdx 1])] = Ok s0
+       /\ positions (tk s0) = [7; 8; 9; 10; 11]
+       /\ iterate_nested_break ex_O WCompscans WScans 0 s0 = Ok (ys, sf)
+       /\ map ScansBodyP.tsummary ys = [(1, [7; 8; 9; 10; 11])] /\ positions (tk sf) = [7; 8]
+       /\ lookup "scans" (sel sf) = Some (VScans [SIdx 3])).
+Proof. exact ScansBodyP.ex_inner_break_facts. Qed.
+Print Assumptions C03_inner_break_example.
 
 (* ---------------------------------------------------------------------------------------------------------------
    CONCATENATED DATA SETS (katdal/concatdata.py:ConcatenatedDataSet; Model/ScansConcat.v, Proofs/ScansConcatP.v).
